@@ -38,10 +38,20 @@ def node_kinds(chk):
                 return any(n[0] == "glob" and kind is not None and n[1].endswith("." + kind) for n in names)
             return None
 
-        outs = Interp(prog, fi, decide=decide).run()
+        # module-level helpers of the same module that do the node dispatch are inlined; `deep` is whatever they are given
+        outs = Interp(prog, fi, decide=decide, inline=lambda f, ct: f.cls is None and f.module is fi.module and f.parent is None and not f.is_async).run()
         chk.count(len(outs))
+
+        def drop_empty(ct):
+            """factory(*(), **{}) is factory()"""
+            args = tuple(a for a in ct[2] if not (a[0] == "star" and strip_sites(a[1]) in (("tuple", ()), ("list", ()))))
+            kws = tuple((k, v) for k, v in ct[3] if not (k is None and strip_sites(v) in (("dict", ()), ("call", ("glob", "ext:builtins.dict"), (), ()))))
+            return (ct[0], ct[1], args, kws) + tuple(ct[4:])
+
         for o in outs:
-            facs = [e[1] for e in o.path.events if e[0] == "call" and e[1][1] == ("sym", "factory")]
+            facs = [drop_empty(e[1]) for e in o.path.events if e[0] == "call" and e[1][1] == ("sym", "factory")]
+            if o.kind == "return" and o.value is not None and o.value[0] == "call" and o.value[1] == ("sym", "factory"):
+                o.value = drop_empty(o.value)
             if label == "other":
                 if o.kind != "raise":
                     chk.bad(rule, name, "a node that is neither mapping, sequence nor scalar does not raise (%s)" % o.kind, node=fi.node, stmt="other-node", input=label)
